@@ -73,7 +73,9 @@ def gen_bins(rng, kind, with_fasta, inferred=False):
             tb["end"].append(pos + ln)
             tb["gene"].append(f"G{nm}_{i // 5}")
             pos += ln
-            if rng.random() < (1.0 if inferred and nm == "X" else 0.3):
+            # inferred sexes need >= 40 chrX bins in the antitarget file too; with corrections possibly on (sex-mix)
+            # every chromosome gets the same antitarget density so that the sex-chromosome share stays <= 10% in both blocks
+            if rng.random() < (1.0 if inferred and (nm == "X" or kind == "sex-mix") else 0.3):
                 pos += int(rng.integers(0, 100))
                 ln = int(rng.integers(800, 4000))
                 ab["chromosome"].append(prefix + nm)
@@ -91,11 +93,12 @@ def gen_fasta(rng, path, lengths):
         for name, ln in lengths.items():
             seq = rng.choice(list("ACGT"), ln, p=[0.3, 0.2, 0.2, 0.3])
             # lower-case (repeat-masked) stretches and N runs
-            for _ in range(int(rng.integers(2, 12))):
+            # the same density of masked stretches on every contig, so that the covariate is not a proxy for the chromosome
+            for _ in range(max(2, ln // 2500)):
                 a = int(rng.integers(0, ln))
-                b = min(ln, a + int(rng.integers(10, 3000)))
+                b = min(ln, a + int(rng.integers(10, 1500)))
                 seq[a:b] = np.char.lower(seq[a:b])
-            for _ in range(int(rng.integers(0, 6))):
+            for _ in range(int(rng.integers(0, 3)) + ln // 40000):
                 a = int(rng.integers(0, ln))
                 b = min(ln, a + int(rng.integers(1, 700)))
                 seq[a:b] = "N" if rng.random() < 0.7 else "n"
@@ -160,7 +163,8 @@ def case_cohort(run, i):
             n = len(bins["start"])
             lg = prof + _levels(bins["chromosome"], is_xx[k]) + scale + rng.normal(0, sd, n) if n else np.zeros(0)
             if kind == "random" and n:
-                nul = rng.random(n) < 0.02
+                # uncovered bins only on autosomes: a null chrX/chrY bin is not "at the level expected for the sample's sex" (premise of sex inference)
+                nul = (rng.random(n) < 0.02) & np.array([refmon.chrom_class(c) == "auto" for c in bins["chromosome"]])
                 lg = np.where(nul, -20.0, lg)
             lg = np.round(lg, 6)
             dp = np.where(lg <= -19.9, 0.0, np.round(np.exp2(lg), 6))
